@@ -63,7 +63,8 @@ def strat_case(draw, tier):
     gulp = max(1, -(-eff // nwrites))
     # pre: what is at the output path(s) before the writer starts - nothing / a few stray bytes / a file LONGER than the result
     return {"op": op, "layout": lay, "start": start, "nsamps": nsamps, "gulp": gulp, "p": draw(st.integers(0, 10**6)),
-            "pre": draw(st.sampled_from([0, 0, 1, 2])), "prior": draw(vs.prior_use(n))}
+            "pre": draw(st.sampled_from([0, 0, 1, 2])), "prior": draw(vs.prior_use(n)),
+            "debug_log": draw(st.sampled_from([False, False, False, True]))}
 
 
 def run_op(case, paths, outdir):
@@ -245,7 +246,7 @@ def check(case, ctx):
 
     prepopulate(out0)
     ctxt += f" preexisting_output={['none', 'short', 'longer'][pre]}"
-    with Spy(out0, stale=stale) as spy:
+    with Spy(out0, stale=stale) as spy, vs.debug_logging(case.get("debug_log")):
         try:
             outs = run_op(case, paths, out0)
         except Exception as exc:  # noqa: BLE001
